@@ -242,6 +242,15 @@ PROPS["C13"] = {
                     "a timeout without a structural witness is inconclusive, never a violation"],
 }
 
+PROPS["C07"] = {
+    "units": [
+        rapid("subscription-machine", "rtpconn", "TestVerif_C07_SubscriptionMachine", 600, 4000, timeout={"quick": 900, "thorough": 3600}),
+    ],
+    "technique": "model-based stateful property testing (rapid) of the many-client signalling state machine with real pion offers/answers",
+    "assumptions": ["publisher streams are real rtpUpConnections with fabricated tracks pushed through pushConnNow; the 200 ms coalescing timer of pushConn is bypassed",
+                    "media flow after the offer is not observed; ICE candidates are ignored"],
+}
+
 NOT_APPLICABLE = {}
 
 ENGINES = [
